@@ -37,10 +37,12 @@ CHECKS.update({
   note=BASE + "Outside the claim so far: the lists actually pushed to ls-subscribers (Worterbuch::notify_ls_subscribers), pls.", ref="4 C05"),
  "C06": dict(
   text="Whole lock operations of the real store (Store::lock, acquire_lock, unlock, unlock_all and Lock::release/queue) from directly constructed lock "
-       "states (free; held with 0, 1, 2 waiters), caller chosen by the solver: single holder, lock Ok iff free or holder, confirmation exactly once and "
-       "exactly at hand-over, first-come order, non-holder release refused, waiter cancellation, session end, lock tree clean afterwards.",
+       "states (free; held with 0, 1, 2, 3 waiters), caller chosen by the solver: single holder, lock Ok iff free or holder, confirmation exactly once and "
+       "exactly at hand-over, first-come order (also after a waiter gave up), non-holder release refused, waiter cancellation, session end, lock tree clean afterwards; plus histories through "
+       "the API (lock / acquire / session end of a waiter / release; acquire / acquire / session end of the holder / session end of the new holder) so that the representation invariant "
+       "(locked_keys lists what a client holds or waits for) is MAINTAINED by the operations, not only assumed; protocol level: the acquire_lock confirmation task (C13 family).",
   note=BASE + "async/.await of store.rs is lexically de-sugared for the Kani build (gen/deasync.py; counterexamples are replayed against the original async "
-       "code with real tokio). Bounds: one key, <= 3 clients, <= 2 waiters. Outside: the spawned confirmation task in protocol v1, Worterbuch::locked monitoring.",
+       "code with real tokio). Bounds: one key, <= 4 clients, <= 3 waiters, histories of 4 operations. Outside: the spawned confirmation task in protocol v1, Worterbuch::locked monitoring.",
   ref="4 C06"),
  "C17": dict(
   text="Panic-freedom (panic!, unwrap/expect, index, arithmetic overflow, debug_assert!, unreachable!) of every worterbuch function reached by the C01, C02, "
